@@ -182,6 +182,28 @@ func condVocabulary(g *ssa.Function) []string {
 	return sortedKeys(set)
 }
 
+// oppositeKind: the same condition, the other side ("" when the kind has no sides).
+func oppositeKind(k string) string {
+	pairs := [][2]string{{"=true", "=false"}, {":is-not", ":is"}, {":nil", ":set"}}
+	for _, p := range pairs {
+		if strings.HasSuffix(k, p[0]) {
+			return strings.TrimSuffix(k, p[0]) + p[1]
+		}
+	}
+	for _, p := range pairs {
+		if strings.HasSuffix(k, p[1]) {
+			return strings.TrimSuffix(k, p[1]) + p[0]
+		}
+	}
+	if strings.HasPrefix(k, "err-nil") {
+		return "err-set" + strings.TrimPrefix(k, "err-nil")
+	}
+	if strings.HasPrefix(k, "err-set") {
+		return "err-nil" + strings.TrimPrefix(k, "err-set")
+	}
+	return ""
+}
+
 // depolarise strips what an edge means from a kind: which side of the condition, whose error.
 func depolarise(k string) string {
 	if strings.HasPrefix(k, "err-nil") || strings.HasPrefix(k, "err-set") {
@@ -594,6 +616,28 @@ func runSkipCond(c *Ctx, pkgs []string) {
 		bases = append(bases, b)
 	}
 	sort.Strings(bases)
+	// A test on which the reference function leaves (returns) puts everything else of the function on
+	// its other side, whatever the order in which the tests are written: being newly "guarded" by the
+	// other side of such a test is not a new condition.
+	impliedCache := map[string]map[string]bool{}
+	impliedByExit := func(fk, kind string) bool {
+		m, ok := impliedCache[fk]
+		if !ok {
+			m = map[string]bool{}
+			for k, kinds := range ref.Sites {
+				if strings.HasPrefix(k, fk+"|return|") {
+					for _, w := range kinds {
+						if o := oppositeKind(w); o != "" {
+							m[o] = true
+						}
+					}
+				}
+			}
+			impliedCache[fk] = m
+		}
+		return m[kind]
+	}
+	curFK := ""
 	refDefined := map[string]bool{}
 	for _, f := range ref.Defined {
 		refDefined[f] = true
@@ -639,7 +683,7 @@ func runSkipCond(c *Ctx, pkgs []string) {
 		have := map[string]bool{}
 		for _, h := range sites[curKey] {
 			have[h] = true
-			if !al[h] && !alwaysOK[h] && !strings.HasPrefix(h, "err-nil:") && !strings.HasPrefix(h, "err-set:") {
+			if !al[h] && !alwaysOK[h] && !strings.HasPrefix(h, "err-nil:") && !strings.HasPrefix(h, "err-set:") && !impliedByExit(curFK, h) {
 				return false
 			}
 		}
@@ -647,7 +691,7 @@ func runSkipCond(c *Ctx, pkgs []string) {
 			// only tests of a particular callee's error: other guards are regularly re-expressed (a
 			// switch whose earlier cases imply the condition) without the path changing
 			for w := range al {
-				if (strings.HasPrefix(w, "err-nil:") || strings.HasPrefix(w, "err-set:")) && !have[w] && !excusedDrop(w, have) {
+				if strings.HasPrefix(w, "err-nil:") && !have[w] && !excusedDrop(w, have) {
 					return false
 				}
 			}
@@ -755,6 +799,7 @@ func runSkipCond(c *Ctx, pkgs []string) {
 		}
 		unmatched := map[string]bool{}
 		strictMode = len(rks) == len(cks) && gateOf(parts[0])
+		curFK = parts[0]
 		if len(rks) == len(cks) {
 			// bipartite matching (augmenting paths; the sets are tiny)
 			matchOfRef := map[string]string{}
@@ -810,7 +855,7 @@ func runSkipCond(c *Ctx, pkgs []string) {
 			haveK := map[string]bool{}
 			for _, have := range sites[ck] {
 				haveK[have] = true
-				if !anywhere[have] && !alwaysOK[have] && !strings.HasPrefix(have, "err-nil:") && !strings.HasPrefix(have, "err-set:") {
+				if !anywhere[have] && !alwaysOK[have] && !strings.HasPrefix(have, "err-nil:") && !strings.HasPrefix(have, "err-set:") && !impliedByExit(parts[0], have) {
 					extra = append(extra, have)
 				}
 			}
@@ -822,7 +867,7 @@ func runSkipCond(c *Ctx, pkgs []string) {
 				// a dropped check: a kind that guards every reference site of this step and not this one
 				var dropped []string
 				for w, n := range everywhere {
-					if n == len(rks) && (strings.HasPrefix(w, "err-nil:") || strings.HasPrefix(w, "err-set:")) && !haveK[w] && !excusedDrop(w, haveK) {
+					if n == len(rks) && strings.HasPrefix(w, "err-nil:") && !haveK[w] && !excusedDrop(w, haveK) {
 						dropped = append(dropped, w)
 					}
 				}
@@ -834,7 +879,7 @@ func runSkipCond(c *Ctx, pkgs []string) {
 				// every guard occurs at some reference site of this step, but more sites than before are
 				// guarded that way (or less): with as many sites as on the reference tree, one of them changed sides
 				for _, have := range sites[ck] {
-					if !alwaysOK[have] && !strings.HasPrefix(have, "err-nil:") && !strings.HasPrefix(have, "err-set:") {
+					if !alwaysOK[have] && !strings.HasPrefix(have, "err-nil:") && !strings.HasPrefix(have, "err-set:") && !impliedByExit(parts[0], have) {
 						extra = append(extra, have)
 					}
 				}
